@@ -476,6 +476,9 @@ func fileLinesIter(L *LState) int {
 	} else {
 		file = L.Get(UpvalueIndex(2)).(*LUserData).Value.(*lFile)
 	}
+	if file.reader == nil {
+		L.RaiseError("%s is opened for only writing.", file.Name())
+	}
 	buf, err, iseof := readBufioLine(file.reader)
 	if iseof {
 		L.Push(LNil)
@@ -598,6 +601,9 @@ func ioLinesIter(L *LState) int {
 		file = L.Get(UpvalueIndex(2)).(*LUserData).Value.(*lFile)
 		toclose = true
 	}
+	if file.reader == nil {
+		L.RaiseError("%s is opened for only writing.", file.Name())
+	}
 	buf, err, iseof := readBufioLine(file.reader)
 	if iseof {
 		if toclose {
@@ -615,6 +621,9 @@ func ioLinesIter(L *LState) int {
 
 func ioLines(L *LState) int {
 	if L.GetTop() == 0 {
+		if fileDefIn(L).Value.(*lFile).closed {
+			L.RaiseError("file is already closed")
+		}
 		L.Push(L.Get(UpvalueIndex(2)))
 		L.Push(fileDefIn(L))
 		return 2
